@@ -762,6 +762,13 @@ PROPERTIES["C10"]["explanation"] += " (PENDEQ) Parser::match_exact is interprete
 PROPERTIES["C09"]["rules"] += [("SUGARSCOPE", lambda ctx: rule_sugarscope(ctx.lib))]
 PROPERTIES["C09"]["explanation"] += " (SUGARSCOPE) Both by-name temperature rewrites in the prefix transformer also consult the transformer's scope tables for the identifier, so a parameter called `celsius` stays a parameter."
 
+ECHOFORM_WITNESS = {
+    "unit:bps": "`5 Mbps -> kbps` is echoed as `5 megabps ➞ kilobps`; reading that line back: unknown identifier 'megabps'",
+    "unit:LOC": "`3 kLOC` is echoed as `3 kiloLOC`: unknown identifier when read back",
+}
+PROPERTIES["C15"]["rules"] += [("ECHOFORM", lambda ctx: nbt_rules.rule_echoform(ctx.nbt, _prefixes(ctx), ctx.lib, ECHOFORM_WITNESS))]
+PROPERTIES["C15"]["explanation"] += " (ECHOFORM) The (prefix spelling, name field) the typed printer emits for a prefixed unit is compared, for every prefixable unit of the standard library, with the prefix forms that name accepts (two known findings: bps, LOC accept only short prefixes)."
+
 NOT_APPLICABLE = {
     "C03": "numerical agreement of conversion factors over 500 units is a statement about run-time values; no structural clause is a necessary condition that is not already covered under C04/C11/C12 (static analysis cannot bound the arithmetic)",
     "C14": "a statement about the decimal rendering of every f64 under every format setting; the code delegates to pretty_dtoa/num_format and no structural clause of Number::pretty_print_with_dtoa_config can be decided without evaluating it",
